@@ -14,7 +14,8 @@ use identity_jose::jws::{JwsVerifier, SignatureVerificationError, SignatureVerif
 use identity_verification::{MethodRelationship, MethodScope};
 use serde_json::{json, Map, Value};
 
-pub const DIDS: [&str; 4] = ["", "did:example:issuer", "did:example:other", "did:example:third"];
+/// DID 4 has DID 1 as a proper string prefix (issuer equality must be equality of DIDs, not of prefixes)
+pub const DIDS: [&str; 5] = ["", "did:example:issuer", "did:example:other", "did:example:third", "did:example:issuer:sub"];
 pub const RESTS: [&str; 3] = ["", "/p1", "?q=1"];
 #[derive(Clone, Copy, Debug, PartialEq, Eq)]
 pub struct U { pub d: i64, pub r: i64, pub f: i64 }
@@ -261,7 +262,7 @@ pub fn mutations() -> Vec<(&'static str, Vec<fn(&mut Case)>)> {
     ("scope", vec![|c| c.scope = 0, |c| c.scope = 1, |c| c.scope = 2, |c| c.scope = 3, |c| c.scope = 4, |c| c.scope = 5]),
     ("signature", vec![|c| c.sigkey = 11, |c| c.sigkey = 99]),
     ("claims", vec![|c| c.claims_ok = false, |c| { c.claims_ok = false; c.bad = 1; }, |c| { c.claims_ok = false; c.bad = 1; c.vc.expires = Some(100); }, |c| { c.claims_ok = false; c.bad = 2; }, |c| { c.claims_ok = false; c.bad = 3; }, |c| { c.claims_ok = false; c.bad = 4; }, |c| { c.claims_ok = false; c.bad = 5; }, |c| { c.claims_ok = false; c.bad = 6; }, |c| { c.claims_ok = false; c.bad = 7; }]),
-    ("issuer", vec![|c| c.vc.issuer = Some(2), |c| c.vc.issuer = None, |c| c.vc.issuer = Some(3)]),
+    ("issuer", vec![|c| c.vc.issuer = Some(2), |c| c.vc.issuer = None, |c| c.vc.issuer = Some(3), |c| c.vc.issuer = Some(4)]),
     ("issuance", vec![|c| c.vc.issued = 1999, |c| c.vc.issued = 2000, |c| c.vc.issued = 2001]),
     ("expiry", vec![|c| c.vc.expires = None, |c| c.vc.expires = Some(3999), |c| c.vc.expires = Some(4000), |c| c.vc.expires = Some(4001)]),
     ("structure", vec![|c| c.vc.ctx_ok = false, |c| c.vc.type_ok = false, |c| { c.vc.sub_id = None; c.vc.sub_empty = true; }, |c| c.vc.sub_empty = true, |c| c.vc.sub_id = None]),
